@@ -30,6 +30,11 @@ func DefaultGenesisState() GenesisState {
 // error for any failed validation criteria.
 func ValidateGenesis(data GenesisState) error {
 	for _, account := range data.Accounts {
+		if account.GetPubKey() == nil {
+			// module accounts and accounts that only ever received coins carry no public key;
+			// every exported state contains such accounts
+			continue
+		}
 		if account.GetPubKey().PubKey() == nil {
 			return fmt.Errorf("PubKey should never be nil")
 		}
